@@ -7,6 +7,7 @@ mod runner;
 
 mod c01;
 mod c02;
+mod c03;
 mod c04;
 mod c11;
 mod c15;
@@ -16,7 +17,7 @@ mod evalkit;
 use runner::{Check, Tier};
 
 fn checks() -> Vec<&'static dyn Check> {
-    vec![&c01::C01, &c02::C02, &c04::C04, &c11::C11, &c15::C15, &c20::C20]
+    vec![&c01::C01, &c02::C02, &c03::C03, &c04::C04, &c11::C11, &c15::C15, &c20::C20]
 }
 
 fn usage() -> ! {
